@@ -5,6 +5,15 @@ claimed = {
  "C17": dict(text="Bounded model checking by symbolic execution of the real validateGlob/ValidateRefGlob/ValidatePathGlob (and the real text/scanner under them) from /repo's SSA: the pattern is L symbolic bytes; on every feasible path z3 must refute `accepted xor spec-valid` where the spec is the documented filter syntax as a register automaton turned into one SMT formula over the same bytes, plus column-range, named-character and ref=>path obligations. Holds for every byte string up to the stated length; counterexamples are replayed natively before being reported.",
              note="Trusted: z3 4.8.12 verdicts; the gosx interpreter's SSA semantics (cross-validated per run by re-executing sampled path models natively); the reference automaton of DESIGN.md Appendix A.3 (three-valued: silent on NUL, bytes >= 0x80 and CR/LF inside classes). Bounds: quick L<=3, thorough L<=4, all 256 byte values.",
              tech="symbolic execution of go/ssa + SMT (z3) against a formula oracle; bounded by pattern length", ref="§5 C17, Appendix A.3"),
+ "C13": dict(text="Bounded model checking by symbolic execution of the real workflow parser (parse.go, from /repo's SSA): into every mapping of a clean skeleton workflow one entry with a fully symbolic key K (all 256^L byte strings, every L up to the bound) is injected, followed by a concrete unknown sibling. The parser's own switch statements make z3 enumerate exactly the accepted keys; on every feasible path z3 must refute `diagnostic at K's position xor (K not in the documented key set of that section, or duplicate after the section's case rule, or one of the documented key conflicts)`, and the sibling's diagnostic must survive. Two symbolic keys in the case-insensitive sections decide duplicate detection under ASCII folding; mandatory keys are removed one by one.",
+             note="Trusted: z3 verdicts; gosx SSA semantics (cross-validated natively per run); the key tables of DESIGN.md Appendix B; the skeleton workflow as the set of mapping instances. Bounds: key length <= 19 quick / 24 thorough (longest accepted key: 19), one or two injected keys per mapping; ASCII-only case folding.",
+             tech="symbolic execution of go/ssa + SMT (z3): symbolic mapping keys against documented key tables", ref="§5 C13, Appendix B"),
+ "C03": dict(text="Bounded model checking by symbolic execution of parser + visitor + all in-process rules: a malformed placeholder is put (a) at every scalar of a skeleton that uses every key of the syntax, (b) as the value of every existing entry in four shapes, (c) under a fully symbolic key (all byte strings of length 1..19) in four shapes in every mapping, and (d) under pairs of symbolic sibling keys. The solver discovers from the parser which (key, shape) combinations are positions of the syntax; on each such path at least one diagnostic must sit on the placeholder's scalar, of kind `expression` outside the exempt positions. Positions are therefore derived from the code under test, not from a hand-written list.",
+             note="Trusted: z3 verdicts; gosx semantics (native cross-validation per run); the exemption list of the property statement. Bounds: one placeholder per run, key length <= 19, sibling pairs up to length 11 quick / 19 thorough, user-chosen keys represented by two lower-case letters; YAML decoding itself is outside.",
+             tech="symbolic execution of go/ssa + SMT (z3): symbolic keys discover value positions; obligation per position", ref="§5 C03"),
+ "C12": dict(text="Bounded model checking: (1) WorkflowKeyAvailability is executed on a fully symbolic key string (every length 1..60, all byte values); z3 enumerates the accepted keys from the generated switch and on each path the returned context / special-function sets must equal the committed copy of GitHub's table, and be empty for every other string. (2) At every scalar position of a skeleton using every key of the syntax, each of the 12 contexts and 5 special functions is written with a symbolic letter case (all 2^n spellings in one path) in 5 / 4 embeddings through the real lexer, parser, semantic checker and rule; `not allowed here` must be reported iff the table row of the longest matching workflow-key prefix of that position does not list the name.",
+             note="Trusted: z3 verdicts; gosx semantics; spec/availability_table.md (copied from the documentation snapshot) and the position-to-key rule `longest table key that prefixes the generalised syntax path`. `jobs` outside workflow_call outputs is reported as undefined variable (accepted as a report). deprecated-commands rule is excluded (regexp on symbolic text).",
+             tech="symbolic execution of go/ssa + SMT (z3): symbolic table key; symbolic letter case at every syntax position", ref="§5 C12, Appendix C"),
 }
 pending_reason = "check under construction in this session: no registered command yet"
 na = {}
